@@ -1,3 +1,5 @@
+import EqsigVerif.Prelude.Np
+import EqsigVerif.Prelude.Wire
 /-!
 # Model of `eqsig/fns/peaks_and_crossings.py` — local peak detection (hand model, Mathlib-free, over `Rat`)
 
@@ -8,8 +10,17 @@ Stages of `get_peak_array_indices(values)`:
 2. `determine_indices_of_peaks_for_cleaned_array` → `peaksCleaned` : interior positions where the product of
    successive differences is `< 0`, plus first and last;
 3. `np.take(non_zero_indices, …)` → `peaks` : back to original positions.
+
+Further entry points (all follow the tree with the planned fixes, `/tmp/repo_fixed`):
+* `peaksMax`, `peaksMin`, `getPeakArrayIndices` — the `ptype` selection with the fixed parity rule
+  `first_move = values[peak_full_indices[1]] - values[peak_full_indices[0]]`;
+* `nCycFrom`, `nCycAll`, `getNCycArray` — `get_n_cyc_array` (`np.interp` of `0.5*arange` with the `-0.25` offset);
+* `deltaCleaned`, `deltaSeries` — `determine_peak_only_delta_series_4_cleaned_data`, `determine_peaks_only_delta_series`;
+* `pseudoCleaned`, `pseudoCyclicSeries` — `_determine_peak_only_series_4_cleaned_data`,
+  `determine_pseudo_cyclic_peak_only_series`.
 -/
 namespace EqsigVerif.Model.Peaks
+open EqsigVerif.Wire (ErrKind)
 
 /-- stage 1 worker: `(index, value)` of every sample that differs from its predecessor -/
 def runsAux (prev : Rat) (i : Nat) : List Rat → List (Nat × Rat)
@@ -35,5 +46,152 @@ def peaksCleaned (c : List Rat) : List Nat := [0] ++ turnIdx 1 c ++ [c.length - 
 def peaks (v : List Rat) : List Nat :=
   let rs := runs v
   (peaksCleaned (rs.map (·.2))).map (fun k => (rs.map (·.1)).getD k 0)
+
+/-! ### `ptype` selection -/
+
+/-- Python slice `l[::2]` -/
+def evens {α : Type} : List α → List α
+  | [] => []
+  | [a] => [a]
+  | a :: _ :: t => a :: evens t
+
+/-- Python slice `l[1::2]` -/
+def odds {α : Type} : List α → List α
+  | [] => []
+  | _ :: t => evens t
+
+/-- `first_move = values[peak_full_indices[1]] - values[peak_full_indices[0]]` (fixed parity rule).
+`peaks v` always has at least two entries, so the `getD` defaults are never used for `v ≠ []`. -/
+def firstMove (v : List Rat) : Rat :=
+  v.getD ((peaks v).getD 1 0) 0 - v.getD ((peaks v).getD 0 0) 0
+
+/-- `get_peak_array_indices(values, ptype='min')` for `values ≠ []` -/
+def peaksMin (v : List Rat) : List Nat :=
+  if firstMove v ≤ 0 then odds (peaks v) else evens (peaks v)
+
+/-- `get_peak_array_indices(values, ptype='max')` for `values ≠ []` -/
+def peaksMax (v : List Rat) : List Nat :=
+  if firstMove v > 0 then odds (peaks v) else evens (peaks v)
+
+/-- the `ptype` argument (`'all'` stands for every string other than `'min'`/`'max'`) -/
+inductive PType
+  | all | max | min
+  deriving Repr, DecidableEq, Inhabited
+
+/-- `get_peak_array_indices(values, ptype)`; the empty series raises `IndexError`
+(`values[0]` inside `clean_out_non_changing`). -/
+def getPeakArrayIndices (v : List Rat) (ptype : PType) : Except ErrKind (List Nat) :=
+  match v with
+  | [] => throw .IndexError
+  | _ :: _ =>
+    match ptype with
+    | .all => pure (peaks v)
+    | .max => pure (peaksMax v)
+    | .min => pure (peaksMin v)
+
+/-! ### `get_n_cyc_array` -/
+
+/-- `np.interp(x, xp, fp)` at one natural abscissa `x ≥ xp[0]`, scanning the knots from the left:
+`(xj, fj)` is the last knot with `xj ≤ x` seen so far (NumPy: `j` = last index with `xp[j] ≤ x`;
+`j = len-1 → fp[j]`; `xp[j] = x → fp[j]`; otherwise `slope*(x - xp[j]) + fp[j]`). -/
+def interpAux (x : Nat) : Nat → Rat → List Nat → List Rat → Rat
+  | xj, fj, xk :: xs, fk :: fs =>
+      if xk ≤ x then interpAux x xk fk xs fs
+      else if xj = x then fj
+      else (fk - fj) / ((xk : Rat) - (xj : Rat)) * ((x : Rat) - (xj : Rat)) + fj
+  | _, fj, _, _ => fj
+
+/-- `np.interp(x, xp, fp)` for `xp ≠ []`, `x ≥ xp[0]` -/
+def interp (x : Nat) : List Nat → List Rat → Rat
+  | x0 :: xs, f0 :: fs => interpAux x x0 f0 xs fs
+  | _, _ => 0
+
+/-- the ordinates `n_cycs = 0.5*arange(len(indys)); n_cycs[1:] += svalue` -/
+def nCycKnots (len : Nat) (startOrigin : Bool) : List Rat :=
+  (List.range len).map (fun (k : Nat) => if k = 0 then (0 : Rat) else (k : Rat) / 2 + (if startOrigin then -1/4 else 0))
+
+/-- the part of `get_n_cyc_array` after the index list `indys` has been obtained
+(`start='origin'` ↔ `startOrigin = true`, `start='peak'` ↔ `false`); `n = len(values)`.
+Precondition `indys ≠ []` (Python would raise `IndexError` at `indys[0]`; the index lists produced by
+`peaks` / switched peaks are never empty). -/
+def nCycFrom (n : Nat) (indys : List Nat) (startOrigin : Bool) : List Rat :=
+  let indys := if indys.head? = some 0 then indys else 0 :: indys
+  let fp := nCycKnots indys.length startOrigin
+  (List.range n).map (fun x => interp x indys fp)
+
+/-- `get_n_cyc_array(values, opt='all', start)` for `values ≠ []` -/
+def nCycAll (v : List Rat) (startOrigin : Bool) : List Rat := nCycFrom v.length (peaks v) startOrigin
+
+/-- `get_n_cyc_array(values, opt='all', start)`; the empty series raises `IndexError`. -/
+def getNCycArray (v : List Rat) (startOrigin : Bool) : Except ErrKind (List Rat) :=
+  match v with
+  | [] => throw .IndexError
+  | _ :: _ => pure (nCycAll v startOrigin)
+
+/-! ### peak-only series -/
+
+/-- `np.sign` -/
+def sign (x : Rat) : Rat := if x < 0 then -1 else if 0 < x then 1 else 0
+
+/-- `np.diff` of the peak values with a leading `0` (`np.insert(np.diff(pv), 0, 0)`) -/
+def diffs0 (pv : List Rat) : List Rat := 0 :: EqsigVerif.Np.diff pv
+
+/-- `determine_peak_only_delta_series_4_cleaned_data(values)` for `values ≠ []`
+(the empty array raises `IndexError` in `np.take`; see `deltaCleanedE`) -/
+def deltaCleaned (c : List Rat) : List Rat :=
+  let pk := peaksCleaned c
+  let pv := pk.map (fun i => c.getD i 0)
+  EqsigVerif.Np.putIdx (List.replicate c.length 0) pk (diffs0 pv)
+
+/-- `determine_peak_only_delta_series_4_cleaned_data` with its error branch -/
+def deltaCleanedE (c : List Rat) : Except ErrKind (List Rat) :=
+  match c with
+  | [] => throw .IndexError
+  | _ :: _ => pure (deltaCleaned c)
+
+/-- the alternating-sign step of `_determine_peak_only_series_4_cleaned_data`:
+`signs = where(mod(arange, 2), -1, 1)`,
+`where(-signs * pv < 0, -abs(pv), abs(pv))` -/
+def pseudoVals (pv : List Rat) : List Rat :=
+  List.zipWith
+    (fun (k : Nat) (x : Rat) =>
+      let s : Rat := if k % 2 ≠ 0 then -1 else 1
+      if -s * x < 0 then -EqsigVerif.Np.absv x else EqsigVerif.Np.absv x)
+    (List.range pv.length) pv
+
+/-- `_determine_peak_only_series_4_cleaned_data(values)` for `values ≠ []` -/
+def pseudoCleaned (c : List Rat) : List Rat :=
+  let pk := peaksCleaned c
+  let pv := pk.map (fun i => c.getD i 0)
+  EqsigVerif.Np.putIdx (List.replicate c.length 0) pk (pseudoVals pv)
+
+/-- `_determine_peak_only_series_4_cleaned_data` with its error branch -/
+def pseudoCleanedE (c : List Rat) : Except ErrKind (List Rat) :=
+  match c with
+  | [] => throw .IndexError
+  | _ :: _ => pure (pseudoCleaned c)
+
+/-- common stages of the two `determine_*` functions, parameterised by the cleaned-data kernel:
+copy, rebase by `values[0]` (`IndexError` on the empty series), `clean_out_non_changing`,
+`cleaned *= sign(cleaned[1])` (`IndexError` on a constant series), kernel, `np.put` back. -/
+def peakOnlySeries (kernel : List Rat → List Rat) (v : List Rat) : Except ErrKind (List Rat) :=
+  match v with
+  | [] => throw .IndexError
+  | v0 :: _ =>
+    let w := v.map (· - v0)
+    let rs := runs w
+    let cleaned := rs.map (·.2)
+    let idx := rs.map (·.1)
+    match cleaned[1]? with
+    | none => throw .IndexError
+    | some c1 =>
+      let cleaned' := cleaned.map (· * sign c1)
+      pure (EqsigVerif.Np.putIdx (List.replicate w.length 0) idx (kernel cleaned'))
+
+/-- `determine_peaks_only_delta_series(values)` -/
+def deltaSeries (v : List Rat) : Except ErrKind (List Rat) := peakOnlySeries deltaCleaned v
+
+/-- `determine_pseudo_cyclic_peak_only_series(values)` -/
+def pseudoCyclicSeries (v : List Rat) : Except ErrKind (List Rat) := peakOnlySeries pseudoCleaned v
 
 end EqsigVerif.Model.Peaks
